@@ -61,6 +61,8 @@ pub enum Op {
     OnEndTag(Vec<Op>),
     // comment only
     SetText(String),
+    /// element: drop the end-tag handlers registered so far on this element
+    ClearEndTagHandlers,
 }
 
 #[derive(Clone, Copy, Debug, Serialize, Deserialize, PartialEq, Eq, Hash)]
@@ -539,6 +541,11 @@ macro_rules! impl_engine {
                                 if c.streaming { el.start_tag().streaming_replace(streamer(s, c.html)) } else { el.start_tag().replace(&s, ct(c)) }
                             }
                             Op::StRemove => el.start_tag().remove(),
+                            Op::ClearEndTagHandlers => {
+                                if let Some(v) = el.end_tag_handlers() {
+                                    v.clear();
+                                }
+                            }
                             Op::OnEndTag(inner) => {
                                 let sh2 = sh.clone();
                                 let inner = inner.clone();
